@@ -323,7 +323,11 @@ class SimWorld:
                 if it.branch(c.v, "keyed-recheck"):
                     it.event("skip-cancelled", lid, occ)
                     return
-            t = it.call_fn("Scheduler", None, "time", [self.sched_ref()])
+            it.env["leaf_time_read"] = True
+            try:
+                t = it.call_fn("Scheduler", None, "time", [self.sched_ref()])
+            finally:
+                it.env["leaf_time_read"] = False
             it.event("fire", lid, occ, t)
             self.fired.append((lid, occ, t))
             eff = self.effects.pop(lid, None)  # the handler script of an action runs once (first occurrence only)
